@@ -43,6 +43,13 @@
      caller's deadline: dialvia's `ConnectTimeout`) is answered 504 on every route; "stop retrying once the
      context is done, before the error is recorded" is refuted by a witness, "… after it is recorded" is not
 
+  M. the interception point (`mitm.Config.cert`): the certificate generator is a resource every intercepted
+     handshake of every client goes through; a generation that fails (a name x509 refuses: any byte outside
+     ASCII) fails that handshake and leaves the generator as it was — never locked, for every sequence of
+     names —, so a fresh valid name is issued a certificate after any history, and the results of all other
+     names are what they are without the hostile one; "take a lock, return on the error path without
+     releasing it" is refuted by a witness: one refused name, then every fresh name blocks
+
   Not in the model (observed by the correspondence runs only): panic-freedom of net/http and
   crypto/tls on hostile bytes, TCP delivery, the scheduler.
 -/
@@ -51,6 +58,7 @@ import FwdVerif.Lemmas.C12Label
 import FwdVerif.Lemmas.C12Handler
 import FwdVerif.Lemmas.C12Accept
 import FwdVerif.Lemmas.C12Dial
+import FwdVerif.Lemmas.C12Cert
 
 namespace FwdVerif
 namespace C12
@@ -1868,6 +1876,89 @@ theorem c12_dial_loop_break_witness :
     dialLoopBreak 3 (scriptOf [⟨.fail .timeout, false⟩, ⟨.fail .timeout, false⟩, ⟨.fail .timeout, false⟩]) =
       dialLoop 3 (scriptOf [⟨.fail .timeout, false⟩, ⟨.fail .timeout, false⟩, ⟨.fail .timeout, false⟩]) := by
   decide
+
+/-! ## M. the certificate generator of the intercepting listener (`mitm.Config.cert`) -/
+
+/-- whatever names the handshakes of a listener carried — hostile ones included, in any order —, the
+    generator is not left locked … -/
+theorem c12_cert_generator_never_left_locked (names : List Bytes) :
+    (certRun {} names).1.locked = false :=
+  (certRun_ok names {} certState_ok_init).1
+
+/-- … so after a failed generation (after ANY sequence of names, each of them failing or not) the next
+    generation for a valid name the listener has not seen is carried out and succeeds. -/
+theorem c12_cert_generation_failure_releases_generator (names : List Bytes) (fresh : Bytes)
+    (hv : certRefused (certHost fresh) = false) (hf : certHost fresh ∉ (certRun {} names).1.cache) :
+    (certRun {} names).1.locked = false ∧ (certGen (certRun {} names).1 fresh).2 = .issued := by
+  have hok := certRun_ok names {} certState_ok_init
+  refine ⟨hok.1, ?_⟩
+  have h1 : (certRun {} names).1.cache.contains (certHost fresh) = false := by
+    cases hc : (certRun {} names).1.cache.contains (certHost fresh) with
+    | false => rfl
+    | true => exact absurd (by simpa using hc) hf
+  unfold certGen certGenV
+  simp only [h1, hok.1, hv, Bool.false_eq_true, if_false]
+
+example : (certGen (certRun {} [bs "b\u00fccher.test", bs "a\u00e9.test:443"]).1 (bs "second.test")).2 = .issued := by
+  with_unfolding_all decide
+
+/-- a valid name is served (issued, or from the cache) after every history: no name is ever `blocked` -/
+theorem c12_cert_valid_name_always_served (names : List Bytes) (n : Bytes) (hv : certRefused (certHost n) = false) :
+    (certGen (certRun {} names).1 n).2 = .issued ∨ (certGen (certRun {} names).1 n).2 = .cached := by
+  have hok := certRun_ok names {} certState_ok_init
+  unfold certGen certGenV
+  by_cases h1 : (certRun {} names).1.cache.contains (certHost n) = true
+  · right; simp only [h1, if_true]
+  · left
+    have h1' : (certRun {} names).1.cache.contains (certHost n) = false := by simpa using h1
+    simp only [h1', hok.1, hv, Bool.false_eq_true, if_false]
+
+/-- a hostile name anywhere in the sequence of handshakes: its own handshake fails, and every other name
+    gets exactly the result it gets in the sequence without it -/
+theorem c12_hostile_name_does_not_affect_other_names (pre post : List Bytes) (hostile : Bytes)
+    (hr : certRefused (certHost hostile) = true) :
+    (certRun {} (pre ++ hostile :: post)).2 = (certRun {} pre).2 ++ .refused :: (certRun (certRun {} pre).1 post).2 ∧
+    (certRun {} (pre ++ hostile :: post)).2.eraseIdx pre.length = (certRun {} (pre ++ post)).2 := by
+  have hok := certRun_ok pre {} certState_ok_init
+  have hg := certGen_refused (certRun {} pre).1 hostile hok hr
+  have hlen : ∀ (l : List Bytes) (s : CertState), (certRun s l).2.length = l.length := by
+    intro l
+    induction l with
+    | nil => intro s; rfl
+    | cons n rest ih => intro s; simp [certRun, certRunV] at *; exact ih _
+  have h1 : (certRun {} (pre ++ hostile :: post)).2 = (certRun {} pre).2 ++ .refused :: (certRun (certRun {} pre).1 post).2 := by
+    unfold certRun at *
+    rw [certRun_append]
+    unfold certGen at hg
+    simp only [certRunV, hg]
+  refine ⟨h1, ?_⟩
+  rw [h1]
+  have h2 : (certRun {} (pre ++ post)).2 = (certRun {} pre).2 ++ (certRun (certRun {} pre).1 post).2 := by
+    unfold certRun
+    rw [certRun_append]
+  rw [h2, ← hlen pre {}]
+  simp [List.eraseIdx_append_of_length_le]
+
+example : (certRun {} [bs "first.test", bs "b\u00fccher.test", bs "second.test", bs "first.test:443"]).2 =
+    [.issued, .refused, .issued, .cached] := by
+  with_unfolding_all decide
+
+/-- … counter-model (kernel-checked): a generator that takes a lock and forgets it on the error return.  One
+    refused name — an IDN that was not converted to punycode —, then EVERY name the listener has not cached
+    blocks: for every sequence of later names, all of them; names whose certificate was cached before keep
+    working (the outage looks partial).  The code as it is serves them. -/
+theorem c12_cert_lock_kept_on_error_witness :
+    (certRunV .keepLockOnError {} [bs "b\u00fccher.test", bs "second.test", bs "third.test"]).2 = [.refused, .blocked, .blocked] ∧
+    (certRunV .keepLockOnError {} [bs "first.test", bs "b\u00fccher.test", bs "first.test", bs "second.test"]).2 =
+      [.issued, .refused, .cached, .blocked] ∧
+    (certRun {} [bs "b\u00fccher.test", bs "second.test", bs "third.test"]).2 = [.refused, .issued, .issued] ∧
+    (∀ (hostile : Bytes) (later : List Bytes), certRefused (certHost hostile) = true →
+      (certRunV .keepLockOnError {} (hostile :: later)).2 = .refused :: later.map fun _ => .blocked) := by
+  refine ⟨by with_unfolding_all decide, by with_unfolding_all decide, by with_unfolding_all decide, ?_⟩
+  intro hostile later hr
+  have h : certGenV .keepLockOnError {} hostile = ({ locked := true, cache := [] }, .refused) := by
+    simp [certGenV, hr]
+  simp only [certRunV, h, certRun_locked_blocks]
 
 end C12
 end FwdVerif
